@@ -368,6 +368,8 @@ def execute(spec, w, ctx):
             tad = proc.mod("tad")
             first = None
             for k in range(times):
+                if k % 64 == 0 and not w.quiet_budget_left():
+                    break
                 cur = canon(tad.StochasticGame(**ops.game_kwargs(desc, prune)).solve())
                 if first is None:
                     first = cur
